@@ -3,7 +3,8 @@
 Theorems (coq/props/C07.v over Classes.v / ClassSpec.v / ClassLang.v / ClassesProofs.v): copy-down tables = nearest
 definition in the declared ancestry; invoke = get-then-call; bound methods keep their receiver; `super` is the declared
 superclass; `Self` is the invoking class; derives = declared ancestor; constructors return the instance; no implicit
-super initialisation; the error table; eval_mech = eval_spec (see notes/C07.md for the exact status).
+super initialisation; the error table; eval_mech = eval_spec for every program outside the known class (and a
+refutation inside it).
 
 Tie, per generated program of the mini-language (ClassLang.v):
  (a) impl == M: printed lines and error outcome of the rendered program, and the harness dump (`classes`, ext_c07.rs)
@@ -861,8 +862,8 @@ def report(ctx, cases, models, fails, stats, do_shrink=True):
             continue
         if kind in ("M!=S", "M-metamorphic"):
             if kind not in seen_kinds:
-                ctx.broken.append("%s on a generated program (eval_mech_eq_spec / invoke_eq_get_then_call tested by "
-                                  "vm_compute): %s\n%s" % (kind, detail, m["src"]))
+                ctx.broken.append("%s on a generated program (contradicts eval_mech_eq_spec / invoke_eq_get_then_call: "
+                                  "the evaluation or the rendering is broken): %s\n%s" % (kind, detail, m["src"]))
             seen_kinds.add(kind)
             continue
         if kind in ("impl!=M", "tables"):
